@@ -1086,10 +1086,13 @@ func tmxScenarios(c *ctx) []*tmxScn {
 					s.cols = 60 + c.rng.Intn(120)
 					s.rows = 20 + c.rng.Intn(30)
 					if topo != "control" && c.rng.Intn(2) == 0 {
-						// not narrower than the head of the trigger line ("::TRZSZ:TRANSFER:S:1.1.8", 24 columns): tmux wraps
-						// what trz/tsz (or the relay) print into the pane, and a wrapped marker is no trigger for
-						// the client; between 25 and 47 columns the id and the port are cut off at the wrap
-						s.narrow = 26 + c.rng.Intn(20)
+						// wide enough for the whole trigger line (45 columns with id and port): tmux wraps what
+						// trz/tsz (or the relay) print into the pane; a wrapped marker is no trigger for the client,
+						// and between 25 and 47 columns the id and the port are cut off at the wrap - with some cuts
+						// (32 columns: seven digits of the id left) the client does not fire at all (observed in a
+						// thorough run; an observation about narrow panes, not a claim of any property). The two
+						// fixed narrow scenarios (30 and 34 columns) stay.
+						s.narrow = 48 + c.rng.Intn(20)
 					}
 					s.status = c.rng.Intn(2) == 0
 					s.sync = c.rng.Intn(2) == 0
@@ -1153,7 +1156,7 @@ func genTmuxE2E(c *ctx, want func(*tmxScn) bool) {
 		c.count("note:tmux-unavailable:every-scenario-failed-to-start")
 		return
 	}
-	junkT := &c16Real{trzsz.VerifNewLineTransfer(true, false)}
+	junkT := &c16Real{t: trzsz.VerifNewLineTransfer(true, false)}
 	for _, r := range results {
 		tmxJudge(c, r, junkT)
 	}
